@@ -152,11 +152,20 @@ def ex_delay():
                          "effect/delay.rs::Delay::new: default raw value of `feedback` (decibels)"))
     m = anchor(t, r"mix: Parameter::new\(builder\.mix, Mix\(([-0-9._]+)\)\),", "delay Parameter::new default of mix")
     out.append(def_float("delayDefaultMix", m.group(1), "effect/delay.rs::Delay::new: default raw value of `mix`"))
-    ms = anchors(t, r"let delay_time_frames =\s*\(\(self\.delay_time\.as_secs_f64\(\) \* sample_rate as f64\) as usize\)\.max\(1\);",
-                 "delay length formula (at least one frame)")
+    # the line length: whole nanoseconds times the sample rate in integers, rounded down, at least one frame
+    # (Model/Effects/Delay.lean::frames mirrors exactly this; any other formula must fail here)
+    anchor(t, r"fn delay_time_frames\(delay_time: Duration, sample_rate: u32\) -> usize \{\s*"
+              r"let frames = delay_time\.as_nanos\(\) \* sample_rate as u128 / 1_000_000_000;\s*"
+              r"usize::try_from\(frames\)\.unwrap_or\(usize::MAX\)\.max\(1\)\s*\}",
+           "delay length formula (ns * rate / 10^9 in integers, at least one frame)")
+    ms = anchors(t, r"let delay_time_frames = delay_time_frames\(self\.delay_time, sample_rate\);\s*"
+                    r"self\.buffer = vec!\[Frame::ZERO; delay_time_frames\];",
+                 "delay line sized by delay_time_frames")
     if len(ms) != 2:
-        raise Missing(f"delay length formula: expected in init and on_change_sample_rate, found {len(ms)}")
+        raise Missing(f"delay line sized by delay_time_frames: expected in init and on_change_sample_rate, found {len(ms)}")
     anchor(t, r"for input in input\.chunks_mut\(self\.buffer\.len\(\)\)", "delay sub-chunking by the line length")
+    out.append("/-- effect/delay.rs::delay_time_frames is `ns * rate / 10^9` in integers, `.max(1)` -/\n"
+               "def delayLengthInIntegers : Bool := true\n")
     out.append("/-- effect/delay.rs::process walks the input in `chunks_mut(self.buffer.len())` -/\n"
                "def delaySubChunksByLineLength : Bool := true\n")
     return "\n".join(out)
